@@ -395,13 +395,57 @@ impl C02 {
     fn mips_block_case(&self, ctx: &mut Ctx, rng: &mut Rng, big: bool) {
         let arch = if big { "mips" } else { "mipsel" };
         let k = *rng.pick(&[0usize, 1, 2, 3, 5, 13, 14, 14, 15, 15, 16, 17]);
-        let mut words: Vec<u32> = Vec::new();
-        while words.len() < k {
-            let w = mips_plain(rng);
-            if mipsref::mnemonic(w).is_some() && !mipsref::has_delay_slot(w) {
-                words.push(w);
-            }
+        let pc: u32 = 0x0040_0000 + 4 * rng.below(0x1000) as u32;
+        let mut cpu0 = MipsCpu::new(big);
+        for i in 1..32 {
+            cpu0.gpr[i] = reg_value(rng);
         }
+        cpu0.hi = rng.corner64(32) as u32;
+        cpu0.lo = rng.corner64(32) as u32;
+        let tr = crate::c05::translator(arch);
+        // straight-line part: only instructions falcon lifts and whose outcome the reference defines in the state
+        // reached so far (memory they touch is mapped as it is discovered)
+        let mut words: Vec<u32> = Vec::new();
+        let mut run = cpu0.clone();
+        let filler = |rng: &mut Rng, words: &mut Vec<u32>, run: &mut MipsCpu, cpu0: &mut MipsCpu| {
+            let w = mips_plain(rng);
+            if mipsref::mnemonic(w).is_none() || mipsref::has_delay_slot(w) {
+                return;
+            }
+            let mut wb = if big { w.to_be_bytes().to_vec() } else { w.to_le_bytes().to_vec() };
+            wb.extend_from_slice(&[0, 0, 0, 0]);
+            if !matches!(guard(|| tr.translate_block(&wb, 0x40_0000, &Options::default())), Ok(Ok(_))) {
+                return;
+            }
+            let a = pc.wrapping_add(4 * words.len() as u32);
+            for _ in 0..3 {
+                let mut t = run.clone();
+                match mipsref::step(&mut t, a, w, None) {
+                    MipsOutcome::Next { pc: n } if n == a.wrapping_add(4) => {
+                        *run = t;
+                        words.push(w);
+                        return;
+                    }
+                    MipsOutcome::MemFault(f) if f < 0xffff_fe00 && f >= 0x100 => {
+                        for j in 0..48u32 {
+                            let addr = (f & !3).wrapping_sub(16).wrapping_add(j);
+                            if !cpu0.mem.contains_key(&addr) {
+                                let v = rng.u64() as u8;
+                                cpu0.mem.insert(addr, v);
+                                run.mem.insert(addr, v);
+                            }
+                        }
+                    }
+                    _ => return,
+                }
+            }
+        };
+        let mut tries = 0;
+        while words.len() < k && tries < 300 {
+            tries += 1;
+            filler(rng, &mut words, &mut run, &mut cpu0);
+        }
+        let k = words.len();
         let br = mips_branch(rng);
         let brmn = match mipsref::mnemonic(br) {
             Some(m) if mipsref::has_delay_slot(br) => m,
@@ -431,13 +475,6 @@ impl C02 {
             _ => 4 * words.len(),
         };
         let shape = format!("k{}:{}", if k >= 13 { k.to_string() } else { "small".to_string() }, if nbytes == 4 * (k + 1) { "cut_before_slot" } else if nbytes == 64 { "window64" } else { "whole" });
-        let pc: u32 = 0x0040_0000 + 4 * rng.below(0x1000) as u32;
-        let mut cpu0 = MipsCpu::new(big);
-        for i in 1..32 {
-            cpu0.gpr[i] = reg_value(rng);
-        }
-        cpu0.hi = rng.corner64(32) as u32;
-        cpu0.lo = rng.corner64(32) as u32;
         let mut bytes = Vec::new();
         for w in &words {
             bytes.extend_from_slice(&if big { w.to_be_bytes() } else { w.to_le_bytes() });
@@ -814,6 +851,280 @@ impl C02 {
     }
 }
 
+// ------------------------------------------------------------------ PPC: multi-instruction blocks
+
+fn ppc_il_state(cpu0: &PpcCpu) -> IlState {
+    let mut st = IlState::new(true);
+    for i in 0..32 {
+        st.set(&format!("r{}", i), Bv::from_u64(cpu0.gpr[i] as u64, 32));
+    }
+    st.set("lr", Bv::from_u64(cpu0.lr as u64, 32));
+    st.set("ctr", Bv::from_u64(cpu0.ctr as u64, 32));
+    st.set("carry", Bv::bit1(cpu0.xer_ca));
+    for f in 0..8 {
+        for b in 0..4 {
+            let bit = (cpu0.cr >> (31 - (4 * f + b))) & 1;
+            st.set(&format!("cr{}-{}", f, CR_BITS[b]), Bv::from_u64(bit as u64, 1));
+        }
+    }
+    st.mem = cpu0.mem.iter().map(|(a, b)| (*a as u64, *b)).collect();
+    st
+}
+
+fn ppc_compare(st: &IlState, cpu: &PpcCpu, il_pc: u64, ref_pc: u32) -> (Vec<String>, Vec<String>) {
+    let mut diffs: Vec<String> = Vec::new();
+    let mut detail: Vec<String> = Vec::new();
+    for i in 0..32 {
+        if st.get_u64(&format!("r{}", i)).map(|v| v as u32) != Some(cpu.gpr[i]) {
+            diffs.push("gpr".into());
+            detail.push(format!("r{}: expected 0x{:x} got {:?}", i, cpu.gpr[i], st.get(&format!("r{}", i)).map(|b| b.hex())));
+        }
+    }
+    if st.get_u64("lr").map(|v| v as u32) != Some(cpu.lr) {
+        diffs.push("lr".into());
+        detail.push(format!("lr: expected 0x{:x} got {:?}", cpu.lr, st.get("lr").map(|b| b.hex())));
+    }
+    if st.get_u64("ctr").map(|v| v as u32) != Some(cpu.ctr) {
+        diffs.push("ctr".into());
+        detail.push(format!("ctr: expected 0x{:x} got {:?}", cpu.ctr, st.get("ctr").map(|b| b.hex())));
+    }
+    if st.get("carry").map(|b| b.is_one()) != Some(cpu.xer_ca) {
+        diffs.push("carry".into());
+    }
+    for f in 0..8 {
+        for b in 0..4 {
+            let bit = (cpu.cr >> (31 - (4 * f + b))) & 1;
+            let name = format!("cr{}-{}", f, CR_BITS[b]);
+            let got = st.get(&name);
+            if got.map(|g| g.bits == 1 && g.to_u64() == Some(bit as u64)) != Some(true) {
+                diffs.push("cr".to_string());
+                detail.push(format!("{}: expected {} got {:?}", name, bit, got.map(|b| b.hex())));
+            }
+        }
+    }
+    let refmem: std::collections::BTreeMap<u64, u8> = cpu.mem.iter().map(|(a, b)| (*a as u64, *b)).collect();
+    if st.mem != refmem {
+        diffs.push("mem".into());
+        let d: Vec<String> = refmem.iter().filter(|(a, b)| st.mem.get(*a) != Some(*b)).take(6).map(|(a, b)| format!("[{:x}] expected {:02x} got {:?}", a, b, st.mem.get(a))).collect();
+        detail.push(format!("memory: {:?}", d));
+    }
+    if il_pc != ref_pc as u64 {
+        diffs.push("pc".into());
+        detail.push(format!("next pc: expected 0x{:x} got 0x{:x}", ref_pc, il_pc));
+    }
+    diffs.sort();
+    diffs.dedup();
+    (diffs, detail)
+}
+
+fn ppc_is_branch(w: u32) -> bool {
+    matches!(w >> 26, 16 | 18) || (w >> 26 == 19 && matches!((w >> 1) & 0x3ff, 16 | 528))
+}
+
+/// Execute words[0..n_cov] one instruction at a time the way a lifted block is executed: a direct branch without
+/// link ends the block whether taken or not; a linking or register branch ends it only when taken.
+fn ppc_ref_block(cpu: &mut PpcCpu, pc0: u32, words: &[u32], n_cov: usize) -> Result<u32, PpcOutcome> {
+    let mut i = 0usize;
+    loop {
+        let a = pc0.wrapping_add(4 * i as u32);
+        if i >= n_cov {
+            return Ok(a);
+        }
+        let w = words[i];
+        match ppcref::step(cpu, a, w) {
+            PpcOutcome::Next { pc } => {
+                if ppc_is_branch(w) {
+                    let direct_no_link = matches!(w >> 26, 16 | 18) && w & 1 == 0;
+                    if direct_no_link || pc != a.wrapping_add(4) {
+                        return Ok(pc);
+                    }
+                } else if pc != a.wrapping_add(4) {
+                    return Err(PpcOutcome::Unmodelled);
+                }
+                i += 1;
+            }
+            o => return Err(o),
+        }
+    }
+}
+
+impl C02 {
+    /// Straight-line PPC code followed by a branch and a little more, lifted as one block; the words the block
+    /// covers are executed by ppcref one at a time and everything is compared.
+    fn ppc_block_case(&self, ctx: &mut Ctx, rng: &mut Rng) {
+        let k = rng.below(7) as usize;
+        let pc: u32 = 0x0040_0000 + 4 * rng.below(0x1000) as u32;
+        let mut cpu0 = PpcCpu { gpr: [0; 32], lr: 0, ctr: 0, cr: rng.u32() & 0xeeee_eeee, xer_so: false, xer_ov: false, xer_ca: rng.bool(), mem: Default::default() };
+        for i in 0..32 {
+            cpu0.gpr[i] = reg_value(rng);
+        }
+        cpu0.lr = reg_value(rng) & !3;
+        cpu0.ctr = match rng.below(4) {
+            0 => 1,
+            1 => 0,
+            2 => 2,
+            _ => reg_value(rng),
+        };
+        let accepts = |w: u32| matches!(guard(|| Ppc::new().translate_block(&w.to_be_bytes(), 0x40_0000, &Options::default())), Ok(Ok(ref b)) if !b.instructions().is_empty());
+        // straight-line part: instructions falcon lifts and the reference defines in the state reached so far
+        let mut words: Vec<u32> = Vec::new();
+        let mut run = cpu0.clone();
+        let mut tries = 0;
+        while words.len() < k && tries < 200 {
+            tries += 1;
+            let w = ppc_word(rng);
+            if ppcref::mnemonic(w).is_none() || ppc_is_branch(w) || !accepts(w) {
+                continue;
+            }
+            let a = pc.wrapping_add(4 * words.len() as u32);
+            for _ in 0..3 {
+                let mut t = run.clone();
+                match ppcref::step(&mut t, a, w) {
+                    PpcOutcome::Next { pc: n } if n == a.wrapping_add(4) => {
+                        run = t;
+                        words.push(w);
+                        break;
+                    }
+                    PpcOutcome::MemFault(f) if f < 0xffff_fd00 && f >= 0x100 => {
+                        for j in 0..192u32 {
+                            let addr = f.wrapping_sub(16).wrapping_add(j);
+                            if !cpu0.mem.contains_key(&addr) {
+                                let v = rng.u64() as u8;
+                                cpu0.mem.insert(addr, v);
+                                run.mem.insert(addr, v);
+                            }
+                        }
+                    }
+                    _ => break,
+                }
+            }
+        }
+        let k = words.len();
+        let mut br = 0u32;
+        for _ in 0..50 {
+            let w = ppc_word(rng);
+            if ppc_is_branch(w) && ppcref::mnemonic(w).is_some() && accepts(w) {
+                br = w;
+                break;
+            }
+        }
+        if br == 0 {
+            return;
+        }
+        let brmn = ppcref::mnemonic(br).unwrap_or("?");
+        if br >> 26 == 16 {
+            let bo = (br >> 21) & 31;
+            let canonical = if bo & 0b10100 == 0b10100 { bo == 20 } else if bo & 0b10000 != 0 { bo & 0b01000 == 0 } else if bo & 0b00100 != 0 { bo & 0b00010 == 0 } else { true };
+            if !canonical || br & 1 == 1 {
+                // reserved BO encodings; bcl forms are the recorded finding C02-K2 (single-instruction cases own it)
+                return;
+            }
+        }
+        // a displacement of +4 would make "taken" and "not taken" indistinguishable for the reference
+        if (br >> 26 == 18 && br & 0x03ff_fffc == 4) || (br >> 26 == 16 && br & 0xfffc == 4) {
+            br ^= 8;
+        }
+        words.push(br);
+        for _ in 0..rng.below(3) {
+            let w = ppc_word(rng);
+            if ppcref::mnemonic(w).is_some() && !ppc_is_branch(w) && accepts(w) {
+                words.push(w);
+            }
+        }
+        let br_at = pc + 4 * (words.iter().position(|w| *w == br).unwrap_or(0) as u32);
+        if cpu0.lr == br_at + 4 || cpu0.ctr & !3 == br_at + 4 {
+            return;
+        }
+        let input = |cpu: &PpcCpu| {
+            let mut j = ppc_json(cpu, pc, words[0]);
+            j["words"] = json!(words.iter().map(|w| format!("0x{:08x} {}", w, ppcref::mnemonic(*w).unwrap_or("?"))).collect::<Vec<_>>());
+            j
+        };
+        let mut bytes = Vec::new();
+        for w in &words {
+            bytes.extend_from_slice(&w.to_be_bytes());
+        }
+        ctx.trace(|| format!("ppc block {}", input(&cpu0)));
+        let btr = match guard(|| Ppc::new().translate_block(&bytes, pc as u64, &Options::default())) {
+            Err(p) => {
+                ctx.panic_violation(&format!("ppc:lift_block:{}", brmn), &p, input(&cpu0));
+                return;
+            }
+            Ok(Err(_)) => {
+                ctx.count("ppc.block.falcon_rejected");
+                return;
+            }
+            Ok(Ok(b)) => b,
+        };
+        ctx.eval();
+        let mut addrs: Vec<u64> = btr.instructions().iter().map(|(a, _)| *a).collect();
+        addrs.sort();
+        addrs.dedup();
+        let n_cov = addrs.len();
+        if addrs.iter().enumerate().any(|(i, a)| *a != pc as u64 + 4 * i as u64) || n_cov > words.len() {
+            ctx.violation(&format!("ppc:block:{}:instructions_not_a_prefix_of_the_bytes", brmn), json!({"input": input(&cpu0), "addresses": addrs.iter().map(|a| format!("0x{:x}", a)).collect::<Vec<_>>()}));
+            return;
+        }
+        for _ in 0..8 {
+            let mut probe = cpu0.clone();
+            match ppc_ref_block(&mut probe, pc, &words, n_cov) {
+                Err(PpcOutcome::MemFault(a)) => {
+                    for j in 0..192u32 {
+                        cpu0.mem.entry(a.wrapping_sub(16).wrapping_add(j)).or_insert(rng.u64() as u8);
+                    }
+                }
+                _ => break,
+            }
+        }
+        if cpu0.mem.keys().any(|a| *a >= 0xffff_fe00) {
+            ctx.count("ppc.access_wraps_address_space(skipped)");
+            return;
+        }
+        let mut cpu = cpu0.clone();
+        let ref_pc = match ppc_ref_block(&mut cpu, pc, &words, n_cov) {
+            Ok(p) => p,
+            Err(_) => {
+                ctx.count("ppc.block.ref_not_defined(skipped)");
+                return;
+            }
+        };
+        if (ref_pc as i64 - pc as i64).abs() > 0x4000_0000 && !brmn.contains("lr") && !brmn.contains("ctr") {
+            ctx.count("ppc.branch_target_wraps_address_space(skipped)");
+            return;
+        }
+        let mut st = ppc_il_state(&cpu0);
+        let il_pc = match run_block_until_branch(&btr, &mut st) {
+            LiftEnd::Next(p) => p,
+            other => {
+                let kind = match &other {
+                    LiftEnd::Intrinsic(_) => "intrinsic".to_string(),
+                    LiftEnd::Fault(f) => f.kind().to_string(),
+                    o => format!("{:?}", o).to_lowercase(),
+                };
+                ctx.violation(&format!("ppc:block:{}:il_{}", brmn, kind), json!({"input": input(&cpu0), "covered_words": n_cov, "il_end": format!("{:?}", other)}));
+                return;
+            }
+        };
+        let (diffs, detail) = ppc_compare(&st, &cpu, il_pc, ref_pc);
+        if !diffs.is_empty() {
+            // an instruction that is wrong on its own is reported by the single-instruction cases
+            for w in &words[..n_cov] {
+                let before = ctx.n_violations();
+                let mut r2 = rng.clone();
+                self.ppc_case(ctx, &mut r2, *w, "block_probe");
+                if ctx.n_violations() != before {
+                    ctx.count("ppc.block_case_attributed_to_one_instruction");
+                    return;
+                }
+            }
+            ctx.violation(&format!("ppc:block:{}:diff={}", brmn, diffs.join("+")), json!({"input": input(&cpu0), "covered_words": n_cov, "differences": detail}));
+            return;
+        }
+        ctx.class(&format!("ppc/block/{}/cov{}", brmn, if n_cov > k { "branch" } else { "prefix" }));
+        ctx.count("ppc.block.compared");
+    }
+}
+
 impl Check for C02 {
     fn directed(&self) -> u64 {
         2
@@ -856,11 +1167,12 @@ impl Check for C02 {
             }
             _ => {
                 for _ in 0..12 {
-                    match rng.below(6) {
+                    match rng.below(7) {
                         5 => {
                             let big = rng.bool();
                             self.mips_block_case(ctx, rng, big);
                         }
+                        6 => self.ppc_block_case(ctx, rng),
                         0 | 1 => {
                             let big = rng.bool();
                             let w = mips_plain(rng);
